@@ -267,6 +267,11 @@ def _wrap(n, w):
     M = 1 << w
     if lo is not None and hi is not None and 0 <= lo and hi < M:
         return n
+    if n.op == 'irew':
+        sp = _split_pack(n.args[0], w)
+        if sp is not None:
+            r = mk('irew', (sp[0],), 'I', w); r.lo = sp[0].lo; r.hi = sp[0].hi
+            return r
     r = mk('imod', (n, iconst(M, w + 1)), 'I', w)
     r.lo = 0; r.hi = M - 1
     return r
@@ -303,9 +308,28 @@ def imul(a, b, w):
     n.lo = min(c); n.hi = max(c)
     return _wrap(n, w)
 
+def _split_pack(a, k):
+    """a = p + y*c with 0 <= p < 2^k and 2^k | c  ->  (p, y, c) (little-endian packing of fields), else None"""
+    if a.op != 'iadd': return None
+    for p, q in ((a.args[0], a.args[1]), (a.args[1], a.args[0])):
+        if q.op == 'imul':
+            for y, c in ((q.args[0], q.args[1]), (q.args[1], q.args[0])):
+                if c.op == 'iconst' and c.args[0] % (1 << k) == 0 and p.lo is not None and p.hi is not None and 0 <= p.lo and p.hi < (1 << k):
+                    return p, y, c.args[0]
+        if q.op == 'iconst' and q.args[0] % (1 << k) == 0 and p.lo is not None and p.hi is not None and 0 <= p.lo and p.hi < (1 << k):
+            return p, iconst(q.args[0] >> k, a.width), 1 << k
+    return None
+
 def iudiv(a, b, w):
     a = I(a, w); b = I(b, w)
     if a.op == 'iconst' and b.op == 'iconst': return iconst(a.args[0] // b.args[0], w)
+    if b.op == 'iconst' and b.args[0] > 1 and b.args[0] & (b.args[0] - 1) == 0:
+        k = b.args[0].bit_length() - 1
+        if a.hi is not None and a.hi < (1 << k) and a.lo is not None and a.lo >= 0: return iconst(0, w)
+        sp = _split_pack(a, k)
+        if sp is not None:
+            p, y, c = sp
+            return imul(y, iconst(c >> k, w), w)
     n = mk('idiv', (a, b), 'I', w)
     n.lo = 0; n.hi = a.hi
     return n
@@ -313,6 +337,11 @@ def iudiv(a, b, w):
 def iurem(a, b, w):
     a = I(a, w); b = I(b, w)
     if a.op == 'iconst' and b.op == 'iconst': return iconst(a.args[0] % b.args[0], w)
+    if b.op == 'iconst' and b.args[0] > 1 and b.args[0] & (b.args[0] - 1) == 0:
+        k = b.args[0].bit_length() - 1
+        if a.hi is not None and a.hi < (1 << k) and a.lo is not None and a.lo >= 0: return a
+        sp = _split_pack(a, k)
+        if sp is not None: return sp[0]
     n = mk('imodop', (a, b), 'I', w)
     n.lo = 0; n.hi = min(a.hi, b.hi)
     return n
